@@ -180,7 +180,7 @@ struct C20 : Scenario {
   C20(const Config &c) : cfg(c) { th = c.geti("thorough"); S = make_surface(c.get("surface", "smtpd"), th); muts = mutations(S, th); }
   static size_t choose_big(World &w, size_t n) { size_t lo = 0, size = n; while (size > 1) { size_t span = 1; while (span * 240 < size) span *= 240; size_t cnt = (size + span - 1) / span; size_t d = (size_t) w.ex->choose_n((int) cnt, BK_FREE); lo += d * span; size = std::min(span, size - d * span); } return lo; }
   void setup(World &w) override {
-    QmailEnv::build(w, cfg, true); Kernel &k = w.k; w.crash_soft = true; w.livelock_after = 200000;   /* 300000 identical input bytes are consumed in identical iterations */
+    QmailEnv::build(w, cfg, true); Kernel &k = w.k; w.crash_soft = true; w.hang_ms = 5000; w.livelock_after = 200000;   /* 300000 identical input bytes are consumed in identical iterations */
     size_t idx = choose_big(w, muts.size() + S.extras.size()); std::string desc;
     if (idx < muts.size()) { base = &S.bases[muts[idx].base]; input = apply(S, muts[idx], &desc); casename = S.name + " [" + base->note + "] " + desc; }
     else { base = &S.extras[idx - muts.size()]; input = base->subj; casename = S.name + " [" + base->note + "]"; }
